@@ -11,13 +11,16 @@ from .netsim import Net, SimClock, SocketModule
 
 _p2p = None
 _code = None
+# renewed for every run; the last one is the module the run talks to
+HERMETIC_MODULES = ["bits.crypto", "bits.utils", "bits.p2p"]
 
 
 def p2p_module(fresh=False):
     """fresh=True: every simulated run is a new process as far as bits.p2p is concerned -
     the module body is executed again in a brand-new module object, so module-level
     state (caches, buffers) left by an earlier run in this worker cannot leak into
-    this one.  (Only bits.p2p itself is renewed; the pure helpers it imports are not.)"""
+    this one.  bits.p2p and the helper modules it leans on (bits.crypto, bits.utils) are
+    renewed; see sim/fresh.py."""
     global _p2p, _code
     if _p2p is None:
         import_bits()
@@ -30,23 +33,9 @@ def p2p_module(fresh=False):
         _warm_up_opcode_tracing()
         logging.disable(logging.CRITICAL)
     if fresh:
-        import types
+        from . import fresh as F
 
-        old = _p2p
-        m = types.ModuleType(old.__name__)
-        m.__file__ = old.__file__
-        m.__package__ = old.__package__
-        m.__spec__ = old.__spec__
-        m.__loader__ = getattr(old, "__loader__", None)
-        S.global_patch_on()  # locks created by the module body are scheduler-aware
-        try:
-            exec(_code, m.__dict__)
-        finally:
-            S.global_patch_off()
-        sys.modules[old.__name__] = m
-        sys.modules["bits"].p2p = m
-        S.patch_modules([m])
-        _p2p = m
+        _p2p = F.refresh(HERMETIC_MODULES)[-1]
     return _p2p
 
 
